@@ -79,6 +79,11 @@ type resolveRec struct {
 	WK      wkT                `json:"wk"`
 	Srv     map[string]srvRole `json:"srv"`
 	Allowed []variantT         `json:"allowed"`
+	NSrvQ   int                `json:"nsrvq"` // the largest number of SRV queries any permitted outcome makes
+	Spell   struct {
+		O []string `json:"o"`
+		D []string `json:"d"`
+	} `json:"spell"`
 	LWK     struct {
 		OK   bool  `json:"ok"`
 		Addr nameT `json:"addr"`
@@ -142,19 +147,40 @@ func (c *conc) done() {
 	}
 }
 
-var invalidSpellings = map[string][]string{
-	"empty":       {""},
-	"underscore":  {"ex_ample%s", "_s%s"},
-	"space":       {"exa mple%s", " s%s", "s%s "},
-	"barev6":      {"2001:db8::1", "::1", "fe80::1"},
-	"unclosed":    {"[2001:db8::1", "[::1"},
-	"nohost":      {":8448", ":1"},
-	"port6digits": {"s%s:123456", "s%s:844800"},
-	"portalpha":   {"s%s:80a", "s%s:https"},
-	"portempty":   {"s%s:"},
-	"bracketname": {"[s%s]", "[s%s]:8448"},
-	"twoports":    {"s%s:8448:8448"},
-	"nonascii":    {"exämple%s", "s․%s"},
+// spell turns a spelling of Resolve_gen.tla (Ident.tla characters plus host placeholders) into the
+// concrete string; role "S" / "D" selects whose hosts fill the placeholders.
+func (c *conc) spell(atoms []string, role string) string {
+	dnsTok, v4Tok, v6Tok := "S", "L4", "L6"
+	if role == "D" {
+		dnsTok, v4Tok, v6Tok = "D", "DL4", "DL6"
+	}
+	var b strings.Builder
+	for _, a := range atoms {
+		switch a {
+		case "<dns>":
+			b.WriteString(c.hosts[dnsTok])
+		case "<v4>":
+			b.WriteString(c.hosts[v4Tok])
+		case "<v6>":
+			b.WriteString(c.hosts[v6Tok])
+		case "sp":
+			b.WriteByte(' ')
+		case "nul":
+			b.WriteByte(0)
+		case "u2":
+			b.WriteString("\u00e9")
+		case "u4":
+			b.WriteString("\U0001F600")
+		case "PAD": // only used as PAD "." <dns>: pad the host to 256 characters
+			b.WriteString(strings.Repeat("p", 255-len(c.hosts[dnsTok])))
+		default:
+			if len(a) != 1 {
+				panic("unknown spelling atom " + a)
+			}
+			b.WriteString(a)
+		}
+	}
+	return b.String()
 }
 
 func (c *conc) host(tok string) string {
@@ -162,16 +188,7 @@ func (c *conc) host(tok string) string {
 		return h
 	}
 	if strings.HasPrefix(tok, "INV:") {
-		alts := invalidSpellings[tok[4:]]
-		if alts == nil {
-			panic("unknown invalid-name kind " + tok)
-		}
-		s := alts[int((c.seed+int64(c.i))%int64(len(alts))+int64(len(alts)))%len(alts)]
-		if strings.Contains(s, "%s") {
-			s = fmt.Sprintf(s, "."+c.label+".c16.test")
-		}
-		c.hosts[tok] = s
-		return s
+		panic("no spelling was given for " + tok)
 	}
 	if strings.HasPrefix(tok, "T_") {
 		h := strings.ToLower(strings.ReplaceAll(tok, "_", "-")) + "." + c.label + ".c16.test"
@@ -392,6 +409,12 @@ func resolveReplay(seed int64) func(i int, raw json.RawMessage) hx.Result {
 		}
 		c := newConc(i, seed)
 		defer c.done()
+		if strings.HasPrefix(r.Origin.Host, "INV:") {
+			c.hosts[r.Origin.Host] = c.spell(r.Spell.O, "S")
+		}
+		if strings.HasPrefix(r.WK.Target.Host, "INV:") {
+			c.hosts[r.WK.Target.Host] = c.spell(r.Spell.D, "D")
+		}
 		oc, wc, sc := nameClass(r.Origin), wkClass(r.WK), srvClass(r)
 		base := "C16/resolve/" + oc
 		if plain(r.Origin) {
@@ -481,7 +504,7 @@ func resolveReplay(seed int64) func(i int, raw json.RawMessage) hx.Result {
 		defer cancel()
 		res, err := fclient.ResolveServer(ctx, spec.ServerName(origin))
 		wkLog := c.z.take(&c.z.wkLog)
-		c.z.take(&c.z.dnsLog)
+		dnsLog := c.z.take(&c.z.dnsLog)
 		var got []triple
 		for _, x := range res {
 			got = append(got, triple{x.Destination, string(x.Host), x.TLSServerName})
@@ -520,8 +543,15 @@ func resolveReplay(seed int64) func(i int, raw json.RawMessage) hx.Result {
 				kind = "refused-but-resolvable"
 			case !gotRefused && len(r.Allowed) == 1 && v0.Refused:
 				kind = "not-refused"
-			case len(got) > 0 && len(v0.Result) > 0 && got[0].SNI != c.render(v0.Result)[0].SNI:
-				kind = "identity:want=" + v0.Result[0].SNI + ",got=" + c.abstract(got[0].SNI)
+			case len(got) > 0 && !sniOfSome(got[0].SNI, r.Allowed, c):
+				// the targets carry the identity of a name no permitted outcome resolves
+				id := "other"
+				for _, tok := range []string{"S", "D", "L4", "DL4", "L6", "DL6"} {
+					if strings.EqualFold(got[0].SNI, c.hosts[tok]) {
+						id = tok
+					}
+				}
+				kind = "identity:got=" + id
 			case sameDestsAsSome(got, r.Allowed, c):
 				kind = "host-or-sni"
 			default:
@@ -540,6 +570,13 @@ func resolveReplay(seed int64) func(i int, raw json.RawMessage) hx.Result {
 			return hx.Result{OK: false, Key: base + "/wellknown-requests",
 				What: fmt.Sprintf("ResolveServer: %s: well-known requests made to %q, the model prescribes %q", describe(), wkLog, wantWK),
 				Want: wantWK, Got: wkLog}
+		}
+
+		// no DNS traffic where no permitted outcome has any (invalid names, literals, explicit ports)
+		if r.NSrvQ == 0 && len(dnsLog) > 0 {
+			return hx.Result{OK: false, Key: base + "/dns-traffic",
+				What: fmt.Sprintf("ResolveServer: %s: DNS queries %q were made, the model prescribes none", describe(), dnsLog),
+				Want: []string{}, Got: dnsLog}
 		}
 
 		// -- LookupWellKnown on its own
@@ -603,6 +640,15 @@ func resolveReplay(seed int64) func(i int, raw json.RawMessage) hx.Result {
 		}
 		return hx.Result{OK: true, NT: nt}
 	}
+}
+
+func sniOfSome(sni string, vs []variantT, c *conc) bool {
+	for _, v := range vs {
+		if !v.Refused && len(v.Result) > 0 && c.host(v.Result[0].SNI) == sni {
+			return true
+		}
+	}
+	return false
 }
 
 func sameDestsAsSome(got []triple, vs []variantT, c *conc) bool {
